@@ -19,11 +19,11 @@ def obligation(name):
 class PathResult:
     """what an obligation function returns for one path"""
 
-    def __init__(self, asserts, world=None, info=None, excuse=None):
+    def __init__(self, asserts, world=None, info=None, kf=None):
         self.asserts = asserts        # name -> z3 Bool term | python bool
         self.world = world            # SymWorld (for replay scripts), may be None
         self.info = info or {}
-        self.excuse = excuse or {}    # name -> (kf_id, z3 term): known-finding signature for that assert
+        self.kf = kf or []            # [(kf_id, z3 term)]: known-finding signatures valid on this path
 
 
 def _term(x):
@@ -35,6 +35,14 @@ def _term(x):
 
 
 NICE = os.environ.get("SX_NICE_MODELS", "1") == "1"
+WITNESS_RATE = float(os.environ.get("SX_WITNESS_RATE", "0.02"))
+
+
+def _want_witness(trace):
+    import hashlib
+    seed = os.environ.get("VERIF_SEED", "0")
+    h = hashlib.sha256((seed + ":" + ",".join(map(str, trace))).encode()).digest()
+    return int.from_bytes(h[:4], "big") / 2 ** 32 < WITNESS_RATE
 
 
 def _explore_chunk(args):
@@ -64,7 +72,7 @@ def _explore_chunk(args):
             npaths += 1
             rec["prefix"] = list(e.trace)
             rec["info"] = res.info
-            names = [n for n in res.asserts if want is None or n in want]
+            names = [n for n in res.asserts if want is None or n.startswith(tuple(want))]
             terms = {n: _term(res.asserts[n]) for n in names}
             if terms:
                 allok = z3.And(*terms.values())
@@ -74,15 +82,23 @@ def _explore_chunk(args):
                         t = z3.simplify(terms[n])
                         if z3.is_true(t):
                             continue
-                        kf = res.excuse.get(n)
                         extra = [z3.Not(t)]
-                        m1 = None
-                        if kf is not None:
+                        for (kid, kterm) in res.kf:
+                            kterm = _term(kterm)
+                            if z3.is_false(z3.simplify(kterm)):
+                                continue
                             # a violation that matches a known-finding signature is reported as such
-                            mk = e.check_sat(z3.Not(t), _term(kf[1]))
+                            mk = e.check_sat(z3.Not(t), kterm)
                             if mk is not None:
-                                rec.setdefault("known", []).append(dict(assertion=n, kf=kf[0]))
-                            extra.append(z3.Not(_term(kf[1])))
+                                k = dict(assertion=n, kf=kid, prefix=list(e.trace))
+                                if res.world is not None:
+                                    from .real import concretise_script
+                                    try:
+                                        k["script"] = concretise_script(res.world, nicer_model(e, [z3.Not(t), kterm], mk))
+                                    except Exception as ex2:     # noqa
+                                        k["script_error"] = repr(ex2)
+                                rec.setdefault("known", []).append(k)
+                            extra.append(z3.Not(kterm))
                         m1 = e.check_sat(*extra)
                         if m1 is not None:
                             m1 = nicer_model(e, extra, m1)
@@ -95,7 +111,7 @@ def _explore_chunk(args):
                                     cex["script_error"] = repr(ex)
                             rec["failed"].append(cex)
             # witness for sampling / replay validation of passing paths
-            if res.world is not None and res.info.get("want_witness"):
+            if res.world is not None and not rec["failed"] and _want_witness(e.trace):
                 from .real import concretise_script
                 wm = nicer_model(e, [], e.model)
                 try:
